@@ -40,7 +40,7 @@ def rand_invocation(rng, bindir):
     d, d2 = D.ymd(), D2.ymd()
     dt, dt2 = d + "T" + hms(s), d2 + "T" + hms(s2)
     lines = ("\n".join(rng.choice([d, dt2, "x " + d2 + " y", dt, "nothing here"]) for _ in range(6)) + "\n").encode()
-    k = rng.randrange(32)
+    k = rng.randrange(35)
     if k == 0:
         return [T("dconv"), dt, "-f", "%A %d %B %Y %H:%M:%S %j %V %u %a %b"], b"", "dconv-f"
     if k == 1:
@@ -109,7 +109,15 @@ def rand_invocation(rng, bindir):
         return [T("ddiff"), "--base", base, "-i", "%m-%d", md(), md(), "-f", "%d"], b"", "base-ddiff"
     if k == 30:
         return [T("dsort"), "--base", base, "-i", "%m-%d"], mdlines, "base-dsort"
-    return [T("dconv"), "--base", base, "-i", "%m-%d", "-S", "-f", "%F"], mdlines, "base-dconv-sed"
+    if k == 31:
+        return [T("dconv"), "--base", base, "-i", "%m-%d", "-S", "-f", "%F"], mdlines, "base-dconv-sed"
+    # a time of day alone, moved between zones: the date that picks the UTC offset (DST or not) comes from --base
+    z = rng.choice(["Europe/Berlin", "America/New_York", "Australia/Sydney", "America/Santiago"])
+    if k == 32:
+        return [T("dconv"), "--base", base, "--zone", z, hms(s)], b"", "base-time-zone"
+    if k == 33:
+        return [T("dconv"), "--base", base, "--from-zone", z, "--zone", "Asia/Kolkata", hms(s)], b"", "base-time-fromzone"
+    return [T("dadd"), "--base", base, "--zone", z, hms(s), "+90m"], b"", "base-time-zone-dadd"
 
 
 def config_task(task):
@@ -284,7 +292,7 @@ def main(tier, seed):
         tasks.append(("loc", (bindir, seed * 49979687 + i, pairs[i:i + step], 5 if quick else 1)))
     for sh in core.pmap(_dispatch, tasks):
         ctx.merge(sh)
-    ctx.rule = ("'config' events = one invocation (18 fully specified templates over all tools, 14 templates with underspecified input "
+    ctx.rule = ("'config' events = one invocation (18 fully specified templates over all tools, 17 templates with underspecified input (open date fields, 2-digit years, times of day moved between DST zones) "
                 "plus --base in dconv, dadd, dround, dseq, dgrep, dtest, ddiff, dsort) run under the baseline (TZ=UTC, LC_ALL=C, fixed clock) and under random settings of TZ (15 values incl. "
                 "POSIX strings, missing files), LANG/LC_ALL/LC_TIME/LANGUAGE (12 values), and the clock injected at gettimeofday()/"
                 "time() (20 instants: epoch, leap days, year ends, 2038, 2100, 3000, 4000 + random, and the real clock); stdout and "
